@@ -39,7 +39,8 @@ func (p *Pass2) Eval(program ast.Prog) error { // Restored ast.Prog
 	for i, ocode := range ocodes {
 		for j, operand := range ocode.Operands {
 			if strings.Contains(operand, "{{.") {
-				tmpl, err := template.New("").Parse(operand)
+				// 未定義ラベルを 0 として出力しないよう、存在しないキーはエラーにする
+				tmpl, err := template.New("").Option("missingkey=error").Parse(operand)
 				if err != nil {
 					return fmt.Errorf("failed to parse template: %v", err) // エラーのみを返す
 				}
